@@ -244,6 +244,9 @@ def make_doc(rng, lang, quick):
                 if rng.random() < 0.5:
                     tok['base'] = '*'
         toks = base.tokens
+        if rng.random() < 0.2:
+            # PTB-style pre-tokenised text: bracket escapes are words like any other
+            rng.choice(toks)['word'] = rng.choice(['-LRB-', '-RRB-', '-LCB-', '-RCB-', '-LSB-', '-RSB-'])
         pool = [Category.parse(s) for s in rng.sample(gen.inventory(lang), 8)]
         trees = [base]
         for _ in range(rng.choice([0, 1, 1, 2])):
